@@ -449,6 +449,68 @@ def alternates(j):
     return T.or_(T.and_(T.eq(j, 2 * half(j)), T.eq(pkind(j), 0)), T.and_(T.eq(j, 2 * half(j) + 1), T.eq(pkind(j), 1)))
 
 
+class UItem(PItem):
+    """placeholder item of a fixed kind at a placeholder position: used to discover the loop-carried state"""
+
+    def __init__(self, j, kind):
+        super().__init__(j)
+        self.kind = kind
+
+    def pyvc_isinstance(self, interp, cls):
+        nm = getattr(cls, "name", None)
+        if nm in KIND:
+            return KIND[nm] == self.kind
+        raise Unsupported(f"isinstance of a path item against {cls!r}")
+
+
+def _copy(v):
+    if isinstance(v, list):
+        return [_copy(x) for x in v]
+    if isinstance(v, tuple):
+        return tuple(_copy(x) for x in v)
+    if isinstance(v, dict):
+        return {k: _copy(x) for k, x in v.items()}
+    return v
+
+
+def _gen(v, mp):
+    """instance of a discovered state: placeholder positions replaced by position terms"""
+    if isinstance(v, UItem):
+        return PItem(T.substitute(v.j, mp))
+    if isinstance(v, T.Term):
+        return T.substitute(v, mp)
+    if isinstance(v, list):
+        return [_gen(x, mp) for x in v]
+    if isinstance(v, tuple):
+        return tuple(_gen(x, mp) for x in v)
+    if isinstance(v, dict):
+        return {k: _gen(x, mp) for k, x in v.items()}
+    return v
+
+
+def _same(a, b, eqs):
+    """structural comparison of two states; positions / integer terms are collected as equations"""
+    if isinstance(a, PItem) and isinstance(b, PItem):
+        eqs.append(T.eq(a.j, b.j))
+        return True
+    ta, tb = isinstance(a, T.Term), isinstance(b, T.Term)
+    if ta or tb:
+        if (ta or (isinstance(a, int) and not isinstance(a, bool))) and (tb or (isinstance(b, int) and not isinstance(b, bool))):
+            x, y = T.lift(a, T.INT) if not ta else a, T.lift(b, T.INT) if not tb else b
+            if x.sort != y.sort:
+                return False
+            eqs.append(T.eq(x, y))
+            return True
+        return False
+    if isinstance(a, (list, tuple)):
+        return type(a) is type(b) and len(a) == len(b) and all(_same(x, y, eqs) for x, y in zip(a, b))
+    if isinstance(a, dict):
+        return isinstance(b, dict) and list(a) == list(b) and all(_same(a[k], b[k], eqs) for k in a)
+    if a is b:
+        return True
+    return type(a) is type(b) and isinstance(a, (bool, int, str, float)) and a == b
+
+
 def add_path_invariant_task(with_origin, with_dest):
     label = f"any length,origin={with_origin},destination={with_dest}"
 
@@ -471,41 +533,94 @@ def add_path_invariant_task(with_origin, with_dest):
         mode = {}
 
         def rule(it, node, lseq, env):
-            """the loop of add_path: inv-init, inv-step (one generic iteration of either parity), and
-            the summary used by the code after the loop"""
+            """the loop of add_path.  The loop-carried state (whatever local variables the code keeps it in)
+            is *inferred*: the body is run four times from the real initial state on placeholder items
+            a1..a4 of the right kinds, and the states after the third and fourth iteration, with the
+            placeholders read as k-2, k-1, k, are the candidate invariant at a generic odd / even position
+            k.  The candidate is then checked to be inductive (one generic iteration of either parity, and
+            the three first iterations from the real initial state) together with what the iteration does
+            to the graph; a candidate that is not inductive is a failure of this inference - undecided -
+            not of the code.  After that the loop is replaced by its summary."""
+            from pyvc.interp import ContinueEx, BreakEx
+
             m = lseq.n  # = n - 1 items remain after the first
-            cl0 = env.vars.get("current_link")
-            okinit = isinstance(cl0, list) and len(cl0) == 1 and isinstance(cl0[0], PItem) and cl0[0].j is T.const(0, T.INT) \
-                and env.vars.get("longer_than_one") is False
-            c.oblige("inv", "init: before the loop current_link is [first node] and longer_than_one is False", T.const(okinit), assume_after=False)
-            step = T.fresh("verify_generic_iteration", T.BOOL)
-            if c.decide(step, "add_path loop: verify one generic iteration (else: use the loop summary)"):
-                mode["kind"] = "step"
-                k = T.fresh("k", T.INT)  # position of the last item consumed so far (0 = the first node)
-                c.assume(T.and_(T.le(0, k), T.lt(k, T.sub(n, 1))))
-                even = T.fresh("k_even", T.BOOL)
+            probe = lseq.elem(T.const(0, T.INT))
+            pit = [x for x in (probe if isinstance(probe, tuple) else (probe,)) if isinstance(x, PItem)]
+            if len(pit) != 1 or not T.is_const(pit[0].j):
+                raise Unsupported("the loop of add_path does not run over the remaining path items")
+            j0 = T.cval(pit[0].j)  # items consumed before the loop
+            if j0 != 1:
+                raise Unsupported("add_path consumes other than one item before its loop")
+
+            def elem_at(pos, item):
+                pr = lseq.elem(T.sub(T.lift(pos, T.INT), j0))
+                if isinstance(pr, tuple):
+                    return tuple(item if isinstance(x, PItem) else x for x in pr)
+                return item
+
+            def snapshot(e):
+                return {k_: _copy(v) for k_, v in e.vars.items()}
+
+            def run_body(state, pos, item):
                 e2 = _child_env(it, env)
-                e2.vars.update(env.vars)
-                alternates(k)
-                alternates(T.add(k, 1))
-                if c.decide(even, "k even"):
-                    c.assume(T.and_(T.eq(k, 2 * half(k)), T.eq(pkind(k), 0)))  # invariant at k
-                    e2.vars["current_link"] = [PItem(k)]
-                    expect_events = []
+                e2.vars.update(_copy(state))
+                it.assign(node.target, elem_at(pos, item), e2)
+                try:
+                    it.exec_block(node.body, e2)
+                except ContinueEx:
+                    pass
+                return snapshot(e2)
+
+            # ---- inference of the loop-carried state on placeholder items --------------------------------
+            a = [None] + [T.fresh(f"a{i_}", T.INT) for i_ in range(1, 5)]
+            states = [snapshot(env)]
+            mark0 = len(log)
+            try:
+                for p_ in range(1, 5):
+                    states.append(run_body(states[-1], a[p_], UItem(a[p_], p_ % 2)))
+            except (PyRaise, BreakEx):
+                raise Unsupported("the loop of add_path stops on a well-formed path: its state cannot be inferred")
+            finally:
+                del log[mark0:]
+            const = lambda q: T.const(q, T.INT)  # noqa: E731
+            early = lambda q: _gen(states[q], {a[j_]: const(j_) for j_ in range(1, 5)})  # noqa: E731
+            t_odd = lambda k_: _gen(states[3], {a[3]: k_, a[2]: T.sub(k_, 1), a[1]: T.sub(k_, 2), a[4]: const(4)})  # noqa: E731
+            t_even = lambda k_: _gen(states[4], {a[4]: k_, a[3]: T.sub(k_, 1), a[2]: T.sub(k_, 2), a[1]: const(1)})  # noqa: E731
+
+            step = T.fresh("verify_generic_iteration", T.BOOL)
+            if c.decide(step, "add_path loop: verify one iteration (else: use the loop summary)"):
+                mode["kind"] = "step"
+                case = T.fresh("which_iteration", T.INT)
+                c.assume(T.and_(T.le(0, case), T.le(case, 4)))
+                which = next(q for q in range(5) if q == 4 or c.decide(T.eq(case, q), f"iteration case {q}"))
+                if which <= 2:  # the first three iterations, from the real initial state
+                    k = const(which)
+                    c.assume(T.lt(k, T.sub(n, 1)))
+                    for j_ in range(1, which + 1):
+                        c.assume(alternates(const(j_)))
+                    before, expected = early(which), early(which + 1)
+                    nxt_even = (which + 1) % 2 == 0
                 else:
-                    km1 = T.sub(k, 1)
-                    c.assume(T.and_(T.eq(k, 2 * half(k) + 1), T.eq(pkind(k), 1), T.eq(pkind(km1), 0)))
-                    e2.vars["current_link"] = [PItem(km1), PItem(k)]
-                    expect_events = ["add_node", "add_link"]
-                e2.vars["longer_than_one"] = T.fresh("longer_than_one", T.BOOL)
+                    k = T.fresh("k", T.INT)  # position of the last item consumed so far
+                    c.assume(T.and_(T.le(which, k), T.lt(k, T.sub(n, 1))))
+                    for j_ in (k, T.sub(k, 1), T.sub(k, 2)):
+                        c.assume(alternates(j_))  # the loop did not raise so far
+                    if which == 3:
+                        c.assume(T.eq(k, 2 * half(k) + 1))
+                        before, expected, nxt_even = t_odd(k), t_even(T.add(k, 1)), True
+                    else:
+                        c.assume(T.eq(k, 2 * half(k)))
+                        before, expected, nxt_even = t_even(k), t_odd(T.add(k, 1)), False
                 nxt = T.add(k, 1)
-                it.assign(node.target, (k, PItem(nxt)), e2)
+                alternates(nxt)
                 mark = len(log)
                 raised = None
                 try:
-                    it.exec_block(node.body, e2)
+                    after = run_body(before, nxt, PItem(nxt))
                 except PyRaise as e:
                     raised = e.exc
+                except BreakEx:
+                    raise Unsupported("the loop of add_path is left by break")
                 mode["done"] = True
                 if raised is not None:
                     c.oblige("inv", f"step: the loop raises only TypeError (got {raised.cls_name})", T.const(raised.cls_name == "TypeError"), assume_after=False)
@@ -513,30 +628,24 @@ def add_path_invariant_task(with_origin, with_dest):
                     c.oblige("inv", "step: nothing is added to the graph by an iteration that raises", T.const(len(log) == mark), assume_after=False)
                 else:
                     c.oblige("inv", "step: an iteration that does not raise consumed an item of the right kind", alternates(nxt), assume_after=False)
-                    new = e2.vars.get("current_link")
-                    if c.decide(T.eq(nxt, 2 * half(nxt)), "next position even"):
-                        good = isinstance(new, list) and len(new) == 1 and isinstance(new[0], PItem) and new[0].j is nxt
-                        c.oblige("inv", "step: after an even position current_link is [that node]", T.const(good), assume_after=False)
-                    else:
-                        good = isinstance(new, list) and len(new) == 2 and all(isinstance(x, PItem) for x in new) and new[1].j is nxt
-                        c.oblige("inv", "step: after an odd position current_link is [previous node, that link]", T.const(good), assume_after=False)
-                        if good:
-                            c.oblige("inv", "step: ... and the previous node is the item before", T.eq(new[0].j, k), assume_after=False)
-                    c.oblige("inv", "step: longer_than_one is set", T.const(e2.vars.get("longer_than_one") is True), assume_after=False)
+                    eqs = []
+                    if not _same(after, expected, eqs):
+                        raise Unsupported("the loop of add_path: the inferred loop-carried state is not re-established by an iteration (limit of the inference)")
+                    c.oblige("inv", "step: the loop-carried state after the iteration is the inferred state of the next position", T.and_(*eqs) if eqs else T.TRUE, assume_after=False)
                     ev = log[mark:]
-                    names = [w for w, a, kw in ev]
+                    names = [w for w, a_, kw in ev]
+                    expect_events = ["add_node", "add_link"] if nxt_even else []
                     c.oblige("inv", f"step: the iteration adds {expect_events or 'nothing'} to the graph", T.const(names == expect_events), assume_after=False)
                     if names == ["add_node", "add_link"]:
                         an, al = ev[0][1], ev[1][1]
-                        good = len(an) == 1 and isinstance(an[0], PItem) and an[0].j is nxt
-                        c.oblige("inv", "step: the node added is the item just consumed (a Node)", T.const(good), assume_after=False)
-                        good = len(al) == 3 and all(isinstance(x, PItem) for x in al) and al[1].j is k and al[2].j is nxt
-                        c.oblige("inv", "step: the link added is the previous item, between its two neighbours in path order", T.const(good), assume_after=False)
-                        if good:
-                            c.oblige("inv", "step: ... upstream node is the item before the link", T.eq(al[0].j, T.sub(k, 1)), assume_after=False)
+                        good = len(an) == 1 and isinstance(an[0], PItem)
+                        c.oblige("inv", "step: the node added is the item just consumed (a Node)", T.eq(an[0].j, nxt) if good else T.FALSE, assume_after=False)
+                        good = len(al) == 3 and all(isinstance(x, PItem) for x in al)
+                        c.oblige("inv", "step: the link added is the previous item, between its two neighbours in path order",
+                                 T.and_(T.eq(al[1].j, k), T.eq(al[2].j, nxt), T.eq(al[0].j, T.sub(k, 1))) if good else T.FALSE, assume_after=False)
                 raise Infeasible()  # a verification-only path ends here
-            # ---- summary (justified by inv-init and inv-step): the loop raises TypeError at the first item
-            # breaking the alternation, otherwise consumes everything
+            # ---- summary (justified by the step obligations): the loop raises TypeError at the first item
+            # breaking the alternation, otherwise consumes everything and leaves the inferred state of the last position
             mode["kind"] = "summary"
             bad = T.fresh("some_item_breaks_alternation", T.BOOL)
             w = T.fresh("w", T.INT)
@@ -548,11 +657,17 @@ def add_path_invariant_task(with_origin, with_dest):
                 raise PyRaise(ExcValue("TypeError", ("alternation",)))
             c.assume_forall(n, lambda j: T.implies(T.le(1, j), alternates(j)))
             if c.decide(T.lt(0, m), "the path has more than one item"):
-                env.vars["longer_than_one"] = True
                 lastj = T.sub(n, 1)
                 c.axiom(T.implies(T.le(1, lastj), alternates(lastj)))
-                env.vars["point"] = PItem(lastj)
-                env.vars["i"] = T.sub(m, 1)
+                if c.decide(T.eq(lastj, 1), "two items"):
+                    final = early(1)
+                elif c.decide(T.eq(lastj, 2), "three items"):
+                    final = early(2)
+                elif c.decide(T.eq(lastj, 2 * half(lastj)), "last position even"):
+                    final = t_even(lastj)
+                else:
+                    final = t_odd(lastj)
+                env.vars.update(final)
 
         interp.loop_rules = {(fn.qualname, 0): rule}
         raised = None
